@@ -125,7 +125,8 @@ def check(c):
                     and norm(n.targets[0]) == var]
             want = '%' if op == 'like' else '*'
             ok = op == 'glob' or any(
-                f".replace('*', '{want}')" in norm(s.value) for s in star)
+                f".replace('*', '{want}')" in norm(s.value) for s in star
+            ) or _escapes(c, q, var, branch, '*%')
             c.ob('C40.wildcard-branch', key + ' star translation', ok,
                  c.where(a, q), '')
     # the bound values are the user's strings
